@@ -227,9 +227,8 @@ public:
    template < class S >
    void add(const SVectorBase<S>& vec)
    {
-      SVectorBase<R>::clear();
       makeMem(vec.size());
-      SVectorBase<S>::add(vec);
+      SVectorBase<R>::add(vec);
    }
 
    /// Append one nonzero \p (i,v).
